@@ -467,6 +467,90 @@ def _r(v):
     s = repr(v)
     return s if len(s) < 200 else s[:197] + '...'
 
+def rule_pipeline_subsets(repo, rule='C06.R9'):
+    """End-to-end fold of the property itself on concrete templates (rules/pipeline.py): several uncompressed subsets - with different
+    replication counts, bitmaps and values, on templates that end inside operator constructs - go through ONE coder state in the
+    per-subset loop (switch_subset_context, walk), in the given order and reversed; every subset must come out (descriptors, values,
+    links) exactly as when it is decoded alone.  The same with the tree that wire() builds for every subset of the whole message."""
+    from sa.rules import pipeline as P
+    rr = RuleResult(rule, 'subsets decoded together, in any order, come out position by position as each one decoded alone (end-to-end fold on concrete templates)')
+
+    def sig(x):
+        return ([(d.cls, d.fields.get('id'), d.fields.get('marker_id'), repr(d.fields.get('nbits')), repr(d.fields.get('refval'))) for d in x[1]], x[2], x[3])
+    for name, (members, scripts) in sorted(P.subset_families().items()):
+        alone = [P.decode_subsets(repo, members, [sc])[0] for sc in scripts]
+        key = 'subsets:%s' % name.replace(' ', '-').replace('/', '').replace(',', '')
+        for a in alone:
+            if not a[0].ok or a[4]:
+                raise AnalysisError('pipeline fold: subset family "%s" does not decode alone (%s, %d values unread): the family entry is inconsistent' % (
+                    name, a[0].describe(), a[4]))
+        orders = [list(range(len(scripts))), list(range(len(scripts)))[::-1]]
+        if len(scripts) > 2:
+            orders.append([1, 2, 0])
+        for order in orders:
+            rr.instance('template "%s", subsets in the order %s' % (name, order))
+            tog = P.decode_subsets(repo, members, [scripts[i] for i in order])
+            for pos, i in enumerate(order):
+                t, a = tog[pos], alone[i]
+                if not t[0].ok:
+                    rr.fail(key, 'pybufrkit/coder.py', 'template "%s": variant %d decodes alone but fails with %s at position %d of the order %s: what the subsets before it '
+                            'left in the coder state reaches it' % (name, i, t[0].exc.cls, pos, order), witness={'template': name, 'order': order})
+                    break
+                if sig(t) != sig(a) or t[4]:
+                    d = [(k, x, y) for k, (x, y) in enumerate(zip(t[2], a[2])) if x != y][:2]
+                    rr.fail(key, 'pybufrkit/coder.py', 'template "%s": variant %d at position %d of the order %s comes out differently from decoding it alone (values %s vs %s; '
+                            'first differences %s; links %s vs %s)' % (name, i, pos, order, _r(t[2]), _r(a[2]), d, t[3], a[3]), witness={'template': name, 'order': order})
+                    break
+            else:
+                # the hierarchical view of every subset of the whole message equals the view of the subset alone
+                descs = [t[1] for t in tog]
+                vals = [t[2] for t in tog]
+                links = [t[3] for t in tog]
+                trees = _wire_all(repo, members, descs, vals, links)
+                for pos, i in enumerate(order):
+                    single = _wire_all(repo, members, [alone[i][1]], [alone[i][2]], [alone[i][3]])
+                    if trees is None or single is None:
+                        continue        # wiring failures are C09's
+                    if _shape(trees[pos]) != _shape(single[0]):
+                        rr.fail(key + ':tree', 'pybufrkit/templatedata.py', 'template "%s": the tree wired for variant %d at position %d of the order %s differs from the tree '
+                                'wired for it alone: %s vs %s' % (name, i, pos, order, _r(_shape(trees[pos])), _r(_shape(single[0]))), witness={'template': name, 'order': order})
+    rr.require_floor(12)
+    return rr
+
+
+def _wire_all(repo, members, descs, vals, links):
+    from sa.rules import pipeline as P
+    from sa.patheval import Obj
+    it = P.PipeInterp(repo, 'TemplateData')
+    init = repo.own_method('TemplateData', '__init__')
+    td = Obj('TemplateData', {})
+    res = it.run_function(init, lambda: {'self': td, init.params[1]: Obj('BufrTemplate', {'members': list(members), 'id': 999999}), init.params[2]: False,
+                                         init.params[3]: [list(d) for d in descs], init.params[4]: [list(v) for v in vals], init.params[5]: [dict(l) for l in links]},
+                          self_class='TemplateData')
+    if len(res) != 1 or not res[0].ok:
+        return None
+    td = res[0].locals['self']
+    w = repo.own_method('TemplateData', 'wire')
+    res = P.PipeInterp(repo, 'TemplateData').run_function(w, lambda: {'self': td}, self_class='TemplateData')
+    if len(res) != 1 or not res[0].ok:
+        return None
+    return td.fields['decoded_nodes_all_subsets']
+
+
+def _shape(nodes):
+    out = []
+    for n in nodes:
+        f = n.fields
+        e = [n.cls, f.get('index')]
+        if f.get('attributes'):
+            e.append(('attributes', _shape(f['attributes'])))
+        if isinstance(f.get('factor'), type(n)):
+            e.append(('factor', _shape([f['factor']])))
+        if isinstance(f.get('members'), list):
+            e.append(('members', _shape(f['members'])))
+        out.append(tuple(e))
+    return out
+
 
 def run(repo, check):
     check.run_rule(rule_r1, repo)
@@ -485,6 +569,7 @@ def run(repo, check):
     from sa.rules.common import share as _sh
     _sh(check, repo, _c13.rule_r3, 'C06.R6', 'coders, renderers and querents keep nothing from one subset (or message) to the next (shared with C13.R3)')
     check.run_rule(rule_handover, repo)
+    check.run_rule(rule_pipeline_subsets, repo)
     from sa.rules import c09 as _c09
     _sh(check, repo, _c09.rule_per_subset_rendering, 'C06.R7', 'every renderer shows subset k from the records of subset k (shared with C09.R11)', args=('C06.R7',))
     check.assumptions = ['the receiver named `state` denotes the CoderState (confirmed by reading; DESIGN 2.2)',
